@@ -20,7 +20,9 @@ RULE = ("classes: (a) the mutate suite's collection-heavy classes with its op hi
         "copy.deepcopy, pickle round trip (classes registered by name for the duration of the case) of the first "
         "instance; history of <=5 (quick) / <=12 (thorough) ops (setattr valid|invalid|None, del, every wrapper mutator) "
         "on the deep copy, on the unpickled copy, on a fresh twin and on the original, fingerprint (dump, hash, str, "
-        "serialization) of the other instance after every op; two fixed cases: __validate__ hook after unpickling, "
+        "serialization) of the other instance after every op; deep alias probe: every native mutator / setattr / del on every "
+        "object reachable (depth 3) from the copy resp. the original, the other instance must keep its fingerprint; "
+        "assignments and deletions on copy.copy(x) vs a fresh twin; two fixed cases: __validate__ hook after unpickling, "
         "Decimals with different exponents; non-trivial = >=2 instances; distinct by sha256 of the case line")
 ASSUMPTIONS = [
     "the undefined-value feature (_enable_undefined_value, the only writer of _none_fields) is off: _none_fields is empty; the model carries it, the harness never populates it",
